@@ -378,7 +378,18 @@ void cstl_array_alloc(cstl_array_t * const a,
 {
     struct cstl_raw_array * ra;
 
-    cstl_shared_ptr_reset(&a->ptr);
+    /*
+     * let go of the current buffer together with any slice offset
+     * and length, so that a failed allocation leaves the object in
+     * its initialized state
+     */
+    cstl_array_reset(a);
+
+    if (sz != 0 && nm > (SIZE_MAX - sizeof(*ra)) / sz) {
+        /* the size in bytes can't be represented: a failed allocation */
+        return;
+    }
+
     cstl_shared_ptr_alloc(&a->ptr, sizeof(*ra) + nm * sz, NULL);
 
     ra = cstl_shared_ptr_get(&a->ptr);
